@@ -302,3 +302,33 @@ func (vc *VerifC03Conn) UseKeyspace(ks string) (frames [][]byte, msg string) {
 func (vc *VerifC03Conn) InUse() int {
 	return vc.c.streams.NumStreams - 1 - vc.c.streams.Available()
 }
+
+// VerifC03SessionDefaults are the session-level settings that Session.Query / Session.NewBatch copy into a
+// new Query / Batch (defaultsFromSession, NewBatch) and that Conn reads from the session at execution time.
+type VerifC03SessionDefaults struct {
+	Consistency        uint16
+	PageSize           int
+	SerialConsistency  uint16
+	DefaultTimestamp   bool
+	Trace              Tracer
+	Prefetch           float64
+	DefaultIdempotence bool
+}
+
+// SetSessionDefaults configures the minimal Session behind the capturing connection the way NewSession
+// would from a ClusterConfig (cons, pageSize, prefetch, trace, cfg.SerialConsistency, cfg.DefaultTimestamp,
+// cfg.DefaultIdempotence, cfg.Consistency, cfg.PageSize).
+func (vc *VerifC03Conn) SetSessionDefaults(d VerifC03SessionDefaults) {
+	s := vc.s
+	s.mu.Lock()
+	s.cons = Consistency(d.Consistency)
+	s.pageSize = d.PageSize
+	s.prefetch = d.Prefetch
+	s.trace = d.Trace
+	s.cfg.Consistency = Consistency(d.Consistency)
+	s.cfg.PageSize = d.PageSize
+	s.cfg.SerialConsistency = SerialConsistency(d.SerialConsistency)
+	s.cfg.DefaultTimestamp = d.DefaultTimestamp
+	s.cfg.DefaultIdempotence = d.DefaultIdempotence
+	s.mu.Unlock()
+}
